@@ -75,8 +75,16 @@ CHECKS = {
    design="6/C10", technique=TECH),
 }
 
-NOT_YET = {
-}
+CHECKS["C12"] = dict(
+   text=("AtomicService.tla (exact integer arithmetic) model-checked for n<=5, slot sizes 2..8, margins 0..10 (incl. margin >= "
+         "slot), every tick of three cycles: AtMostOne, MarginSeparation, NonEmptyWindow, SingleAlways. Every configuration is "
+         "turned into calls of the real can_run_atomic_service for all positions at the same instant (every tick, several "
+         "tick lengths and epoch offsets up to 2e9 s, float neighbours of every window boundary); TLC validates the answers "
+         "against the model (strict, away from rounding boundaries) and against the property formulas (every instant)."),
+   note="Float rounding is exercised, not modelled; margin == slot is checked with exact tick lengths only.",
+   design="6/C12", technique=TECH)
+
+NOT_YET = {}
 
 def main() -> None:
     props = [json.loads(l)["id"] for l in (VERIF / "properties.jsonl").read_text().splitlines() if l.strip()]
